@@ -142,7 +142,10 @@ func main() {
 	w := &world{keys: map[string]hx.KeyPair{"k1": k[0], "k2": k[1], "k4": hx.Key3()}, creds: map[string]*gabi.Credential{},
 		userSecret: randBits(rng, 250), kssSecret: randBits(rng, 250),
 		ctx: map[int]*big.Int{1: big.NewInt(1), 2: randBits(rng, 200)}}
-	kssKeys := map[string]*gabikeys.PublicKey{"k1": k[0].PK, "k2": k[1].PK}
+	if a.Tier == "thorough" { // 1024-bit and larger keys mixed
+		w.keys["k2"] = hx.Key2048()
+	}
+	kssKeys := map[string]*gabikeys.PublicKey{"k1": w.keys["k1"].PK, "k2": w.keys["k2"].PK}
 	lines := hx.ReadNDJSON(a.In)
 	var cases []aCase
 	for _, l := range lines {
